@@ -36,6 +36,9 @@ type Doc struct {
 	BaseDir string `json:"base_dir,omitempty"`
 	// OnDisk forces the project to be written to scratch and read through kit.NewJapi.
 	OnDisk bool `json:"on_disk,omitempty"`
+	// ReuseDir (not serialised): a directory that already holds every file of the project except the root,
+	// which alone is rewritten. Used by enumerations that change only the root file.
+	ReuseDir string `json:"-"`
 }
 
 func Single(content []byte) Doc {
@@ -235,7 +238,14 @@ func exec(d Doc, keepCore, hook bool) (o *Obs) {
 	var j kit.JApi
 	onDisk := d.OnDisk || len(d.Files) != 1
 	if onDisk {
-		dir, err := Materialise(d)
+		var dir string
+		var err error
+		if d.ReuseDir != "" {
+			dir = d.ReuseDir
+			err = os.WriteFile(filepath.Join(dir, d.Root), d.Files[d.Root], 0o644)
+		} else {
+			dir, err = Materialise(d)
+		}
 		if err != nil {
 			o.Outcome = NewError
 			o.NewErr = "harness: " + err.Error()
@@ -404,4 +414,14 @@ func ExecFile(path string) *Obs {
 	o.Outcome = Accepted
 	o.JSON, _ = j.ToJson()
 	return o
+}
+
+// ScratchSub returns a named directory under the scratch area of this process.
+func ScratchSub(name string) string {
+	scratchMu.Lock()
+	defer scratchMu.Unlock()
+	if scratchDir == "" {
+		scratchDir = filepath.Join(os.TempDir(), fmt.Sprintf("verif-scratch-%d", os.Getpid()))
+	}
+	return filepath.Join(scratchDir, name)
 }
